@@ -64,6 +64,7 @@ func Run(o *drv.Out) {
 	execdrv.Guard(o, func() { corpusReProposal(o) })
 	execdrv.Guard(o, func() { corpusSignatureCache(o) })
 	execdrv.Guard(o, func() { corpusOrderMemoWindow(o) })
+	execdrv.Guard(o, func() { corpusPostCommitCopy(o) })
 	for ci := 0; ci < nCases; ci++ {
 		execdrv.Guard(o, func() { runCase(o, ci, nHeights, bigSends) })
 	}
@@ -1095,6 +1096,104 @@ func corpusOrderMemoWindow(o *drv.Out) {
 		}
 	}
 	o.Sample("order-memo-window-after-page-query: at heights 16..20 the certificate results lock the sell order whose lock memo sits in block N-11, on a proposer / replica that restarted and answered block-list pages ending right above that block")
+}
+
+// corpusPostCommitCopy: scenario "proposal-built-on-post-commit-copy". Right after a commit the
+// controller replaces the mempool state machine by a COPY of the new controller state machine
+// (StateMachine.Copy -> Store.Copy -> Txn.Copy) and rebuilds the cached proposal on it; ProduceProposal
+// serves that cached proposal as long as the mempool does not change. Replicas execute the block on
+// stores built by Reset() / NewStoreWithDB. The transactions of height h+1 are therefore handed to the
+// proposer BEFORE it commits height h, and nothing is submitted afterwards. The traffic is what makes
+// one transaction depend, through an ITERATOR of the working store, on a write an earlier transaction
+// of the same block made: two certificate-results transactions of the nested chain 2 per block, the
+// second carrying a checkpoint above (both included) / equal to / below (second one rejected:
+// HandleCheckpoint -> GetMostRecentCheckpoint, a reverse iterator over the indexer) the first one's.
+func corpusPostCommitCopy(o *drv.Out) {
+	o.Case("proposal-built-on-post-commit-copy")
+	rng := rand.New(rand.NewSource(63))
+	const nested = node.ChainId + 1
+	net := node.NewNetwork(29, 4, nil, 12, node.Options{MutateGenesis: func(g *fsm.GenesisState) {
+		for _, v := range g.Validators {
+			v.Committees = []uint64{node.ChainId, nested}
+		}
+		g.Pools = append(g.Pools, &fsm.Pool{Id: nested, Amount: 1})
+	}})
+	defer net.Close()
+	c := execdrv.NewChain(o, net, rng, []int{16, 2, 5})
+	P, V, R, S := c.NewNode("P", 0), c.NewNode("V", 1), c.NewNode("R", -1), c.NewNode("S", -1)
+	nestedHeight, top := uint64(0), uint64(100)
+	cert := func(h uint64, checkpoint uint64) []byte {
+		nestedHeight++
+		rw := &lib.RewardRecipients{PaymentPercents: []*lib.PaymentPercents{{Address: net.FreshAddr(1), Percent: 100, ChainId: nested}}}
+		return net.CertificateResultsTx(P, nested, nestedHeight, h-1, 0, []int{0, 1, 2, 3},
+			&lib.CertificateResult{RewardRecipients: rw, Checkpoint: &lib.Checkpoint{Height: checkpoint, BlockHash: net.FreshAddr(int(checkpoint) + int(nestedHeight)*1000)}}, h)
+	}
+	kinds := []string{"above", "equal", "below", "above", "below", "equal"}
+	wantNTx, kind := 0, "none"
+	for hi := 0; hi <= len(kinds); hi++ {
+		h := P.Height()
+		pre := P.StateDigest()
+		c.Hold = true
+		// nothing is submitted now: the proposal is the one cached right after the last commit
+		p, ok := c.ProposeVDF(P, nil, "produce", nil)
+		if !ok {
+			o.Fail("C03:proposer-failed", "ProduceProposal failed on an honest mempool", map[string]any{"case": o.CurCase(), "height": h})
+			return
+		}
+		what := fmt.Sprintf("the proposer's mempool held, before it committed height %d, a send and two certificate results of chain 2 whose second checkpoint is %s the first one's; the proposal of height %d (%d transactions) was built right after that commit on the copied state machine", h-1, kind, h, p.NTx)
+		fail := func(path, got, want string) {
+			o.Fail("C03:path-diverges:post-commit-mempool-copy", fmt.Sprintf("height %d: %s; path %q gives %q, expected %q", h, what, path, got, want), replayInfo(o, c, h, p, path))
+		}
+		// the mempool of the NEXT height, handed over before this height commits
+		nextKind := "none"
+		if hi < len(kinds) {
+			nextKind = kinds[hi]
+			first := top + 10
+			second := map[string]uint64{"above": first + 5, "equal": first, "below": first - 3}[nextKind]
+			top = max(first, second)
+			for _, tx := range [][]byte{net.SendTx(net.AcctKeys[hi%3], net.FreshAddr(300+hi), 1000, 10000, h, ""), cert(h, first), cert(h, second)} {
+				if err := P.Submit(tx); err != nil {
+					panic(err)
+				}
+			}
+		}
+		okP := c.Validate(P, p)
+		resP := ""
+		if okP {
+			resP = c.Commit(P, p, false)
+		}
+		post := P.StateDigest()
+		o.Op(fmt.Sprintf("def %d %s %s %s %s", h, pre, p.ID, post, p.Obs), "def")
+		c.Release()
+		want := fmt.Sprintf("ok state=%s obs=%s", post, p.Obs)
+		o.Count("compared")
+		if !okP || resP != want {
+			fail("propose+validate+commit-cached", fmt.Sprintf("validate ok=%v commit %q", okP, resP), want)
+			return
+		}
+		if !c.Validate(V, p) {
+			fail("validate on a replica", "rejected", "ok")
+			return
+		}
+		for _, x := range []struct{ path, got string }{{"validate+commit-cached", c.Commit(V, p, false)}, {"commit-replay", c.Commit(R, p, false)}, {"sync", c.Commit(S, p, true)}} {
+			o.Count("compared")
+			if x.got != want {
+				fail(x.path, x.got, want)
+				return
+			}
+		}
+		if p.NTx != wantNTx {
+			o.Fail("C03:scenario-expectation-differs:proposal-built-on-post-commit-copy", fmt.Sprintf("height %d: %s; the scenario expects %d transactions", h, what, wantNTx), replayInfo(o, c, h, p, "produce"))
+			return
+		}
+		if hi > 0 {
+			o.Count("post-commit-copy:second-checkpoint-" + kind)
+			o.Nontrivial(fmt.Sprintf("%s|%d", o.CurCase(), hi))
+		}
+		kind = nextKind
+		wantNTx = map[string]int{"above": 3, "equal": 2, "below": 2, "none": 0}[kind]
+	}
+	o.Sample("proposal-built-on-post-commit-copy: six proposals built on the post-commit copy of the state machine from two certificate results per block (second checkpoint above / equal / below the first): every path reproduces them")
 }
 
 // step is one height of the chain as the proposer saw it.
